@@ -49,6 +49,10 @@ def collect_atoms(test, subst=None, norm=default_norm, out=None):
         for v in test.values:
             collect_atoms(v, subst, norm, out)
         return out
+    if isinstance(test, ast.IfExp):
+        for v in (test.test, test.body, test.orelse):
+            collect_atoms(v, subst, norm, out)
+        return out
     if isinstance(test, ast.Constant):
         return out
     k = atom_key(test, subst, norm)
@@ -59,17 +63,23 @@ def collect_atoms(test, subst=None, norm=default_norm, out=None):
     return out
 
 
-def eval_bool(test, assign, subst=None, norm=default_norm):
+def eval_bool(test, assign, subst=None, norm=default_norm, on_atom=None):
+    """short-circuit evaluation; on_atom(text) is called for every atom actually evaluated"""
     if isinstance(test, ast.UnaryOp) and isinstance(test.op, ast.Not):
-        return not eval_bool(test.operand, assign, subst, norm)
+        return not eval_bool(test.operand, assign, subst, norm, on_atom)
     if isinstance(test, ast.BoolOp):
-        vals = (eval_bool(v, assign, subst, norm) for v in test.values)
+        vals = (eval_bool(v, assign, subst, norm, on_atom) for v in test.values)
         return all(vals) if isinstance(test.op, ast.And) else any(vals)
+    if isinstance(test, ast.IfExp):
+        c = eval_bool(test.test, assign, subst, norm, on_atom)
+        return eval_bool(test.body if c else test.orelse, assign, subst, norm, on_atom)
     if isinstance(test, ast.Constant):
         return bool(test.value)
     t, p = atom_key(test, subst, norm)
     if t not in assign:
         raise AnalysisError("atom `%s` not in the decision table's atom set" % t)
+    if on_atom is not None:
+        on_atom(t)
     return assign[t] == p
 
 
@@ -84,7 +94,8 @@ class Walker:
     Compound statements other than If end the walk with AnalysisError unless
     `opaque` says they are irrelevant."""
 
-    def __init__(self, event, subst=None, norm=default_norm, loops="body", update=None):
+    def __init__(self, event, subst=None, norm=default_norm, loops="body", update=None, on_atom=None):
+        self.on_atom = on_atom
         self.event = event
         self.update = update      # update(stmt, assign): a statement may change an atom's value
         self.subst = subst
@@ -117,7 +128,7 @@ class Walker:
         """returns 'ret' if a return/raise ended the walk"""
         for st in stmts:
             if isinstance(st, ast.If):
-                v = eval_bool(st.test, assign, self.subst, self.norm)
+                v = eval_bool(st.test, assign, self.subst, self.norm, self.on_atom)
                 r = self.walk(st.body if v else st.orelse, assign, events)
                 if r:
                     return r
